@@ -194,6 +194,25 @@ func runC08(r *Rand, tier string, o *Out) {
 		check("reader", "signature-driven reader, a long list of fixed-size elements", "rd.read", sigh, enc, "")
 		check("reflect", "reflection decoder, a long list of fixed-size elements", "dec.reflect", sigh, enc, "")
 	}
+	// strings of more than 64 KiB — alone, last in a tuple, as a dynamic value — cut in their size, inside their bytes,
+	// before their last byte (a decoder that copies a long string from the stream must notice that the stream ended)
+	for _, n := range []int{65537, 100000} {
+		str := &tval{kind: 's', s: r.Bytes(n)}
+		for _, sg := range []string{"s", "(is)"} {
+			t := parseSigT(sg)
+			v := str
+			if sg != "s" {
+				v = &tval{kind: '(', elems: []*tval{{kind: 'n', n: 7}, str}}
+			}
+			enc := encD(t, v)
+			sigh := hx([]byte(sg)) + " "
+			check("reader", "signature-driven reader, a string of more than 64 KiB", "rd.read", sigh, enc, "")
+			check("reflect", "reflection decoder, a string of more than 64 KiB", "dec.reflect", sigh, enc, "")
+		}
+		g := &gval{kind: "s", b: str.s}
+		check("value", "dynamic value, a string of more than 64 KiB", "val.read", "", g.encode(), "")
+		o.Count("long-string")
+	}
 	for i := 0; i < rounds; i++ {
 		// typed data of a random signature: signature-driven reader and reflection decoder
 		t := genCodecSig(r, 1+r.Intn(3), false)
